@@ -13,7 +13,9 @@ structure Inv (S : Schema) (w : WState) (base : List NodeCtx) (cx : NodeCtx) (ex
   nodes : w.st.nodes = base ++ cx :: ext
   open_ : w.st.open_ = base.length
   settles : Settles S cx ext c
-  fresh : ∀ x ∈ base ++ [cx], x.uid < w.st.fresh
+  /-- object identities: the contexts below are older than the open one, which is older than any to come -/
+  below : ∀ x ∈ base, x.uid < cx.uid
+  fresh : cx.uid < w.st.fresh
 
 theorem Inv.top {S : Schema} {w : WState} {base : List NodeCtx} {cx : NodeCtx} {ext : List NodeCtx} {c : List Node}
     (h : Inv S w base cx ext c) : w.top = some cx := by
@@ -52,12 +54,12 @@ def newCtx (P : Parser) (ty : TypeId) (attrs : Option Attrs) (pw : WS) (opts : O
 
 theorem emit_enter (P : Parser) (w : WState) (base : List NodeCtx) (cx : NodeCtx) (ext : List NodeCtx) (c : List Node)
     (t : TypeId) (q q' : Nat) (ty : TypeId) (attrs : Option Attrs) (pw : WS) (a : Attrs)
-    (hi : Inv P.S w base cx ext c) (hp : Plain cx t q)
+    (hi : Inv P.S w base cx ext c) (hp : Plain P.S cx t q) (hpe : cx.pending = [])
     (hm : (P.S.dfa t).matchType q ty = some q') (ha : computeAttrs (P.S.nodeType ty).attrs (attrs.getD []) = .ok a) :
     emit P w (.enter ty attrs pw) = .ok (afterEnter w ((base ++ [{ cx with content := c, mtch := some q' }]) ++
         [newCtx P ty attrs pw cx.opts w.st.fresh]) (base.length + 1) (.enter ty attrs pw), some true) := by
   unfold emit
-  simp only [PState.step, enter_plain P.S P.wsPre w.st base cx ext c t q q' ty attrs pw a hi.nodes hi.open_ hp hi.settles hm ha,
+  simp only [PState.step, enter_plain P.S P.wsPre w.st base cx ext c t q q' ty attrs pw a hi.nodes hi.open_ hp hpe hi.settles hm ha,
     Except.map]
   simp [afterEnter, newCtx]
 
@@ -110,7 +112,7 @@ theorem textValue_normal (w : WState) (top : NodeCtx) (s : List Nat) (prev : Opt
 
 theorem addTextNode_normal (P : Parser) (w : WState) (base : List NodeCtx) (cx : NodeCtx) (ext : List NodeCtx) (c : List Node)
     (t : TypeId) (q q' : Nat) (s : List Nat) (prev : Option (Node × String)) (ptag : Option String) (prevBr : Bool)
-    (hi : Inv P.S w base cx ext c) (hp : Plain cx t q) (hinl : (P.S.nodeType t).inlineContent = true)
+    (hi : Inv P.S w base cx ext c) (hp : Plain P.S cx t q) (hinl : (P.S.nodeType t).inlineContent = true)
     (hok : textOk cx.opts prev s = true)
     (hdrop : cx.opts.preserveWs = false → startsWithSpace s = true → ext = [] → dropsLead cx prevBr = false)
     (hm : (P.S.dfa t).matchType q P.S.textTy = some q') :
@@ -136,13 +138,7 @@ theorem addTextNode_normal (P : Parser) (w : WState) (base : List NodeCtx) (cx :
     unfold emit' emit
     simp only [PState.step, hins, Except.map]
     simp [hp.ty]
-  · refine ⟨rfl, hi.open_, settles_nil _ _, ?_⟩
-    intro x hx
-    have := hi.fresh
-    simp only [List.mem_append, List.mem_singleton] at hx this ⊢
-    rcases hx with hx | hx
-    · exact this x (.inl hx)
-    · subst hx; exact this cx (.inr rfl)
+  · exact ⟨rfl, hi.open_, settles_nil _ _, hi.below, hi.fresh⟩
 
 /-! ### the finish of a complete context, the start and the close of an element read back as a node -/
 
@@ -196,7 +192,7 @@ theorem finishNode_plain (S : Schema) (cx : NodeCtx) (t : TypeId) (q : Nat) (a :
 /-- the start of an element read back as a (non-leaf) node: `enter`, directly below the open context -/
 theorem ruleOpen_node (P : Parser) (w : WState) (base : List NodeCtx) (cx : NodeCtx) (ext : List NodeCtx) (c : List Node)
     (t : TypeId) (q q' : Nat) (tc : TypeId) (ra : Option Attrs) (a : Attrs) (tag : String) (r : TagRule)
-    (hi : Inv P.S w base cx ext c) (hp : Plain cx t q) (hr : r.node = some (some tc)) (hnl : (P.S.nodeType tc).isLeaf = false)
+    (hi : Inv P.S w base cx ext c) (hp : Plain P.S cx t q) (hpe : cx.pending = []) (hr : r.node = some (some tc)) (hnl : (P.S.nodeType tc).isLeaf = false)
     (hm : (P.S.dfa t).matchType q tc = some q') (ha : computeAttrs (P.S.nodeType tc).attrs (ra.getD []) = .ok a) :
     ruleOpen P w tag r ra =
       .ok (afterEnter w ((base ++ [{ cx with content := c, mtch := some q' }]) ++ [newCtx P tc ra r.preserveWs cx.opts w.st.fresh])
@@ -208,7 +204,7 @@ theorem ruleOpen_node (P : Parser) (w : WState) (base : List NodeCtx) (cx : Node
     simp only [List.length_append, List.length_singleton] at this
     exact this
   unfold ruleOpen ruleFirst
-  simp only [hr, hnl, Bool.not_false, if_true, emit_enter P w base cx ext c t q q' tc ra r.preserveWs a hi hp hm ha,
+  simp only [hr, hnl, Bool.not_false, if_true, emit_enter P w base cx ext c t q q' tc ra r.preserveWs a hi hp hpe hm ha,
     Option.getD_some, htop]
   rfl
 
@@ -217,17 +213,16 @@ theorem afterEnter_inv (P : Parser) (w : WState) (base : List NodeCtx) (cx : Nod
     (q' : Nat) (tc : TypeId) (ra : Option Attrs) (pw : WS) (e : Event) (hi : Inv P.S w base cx ext c) :
     Inv P.S (afterEnter w ((base ++ [{ cx with content := c, mtch := some q' }]) ++ [newCtx P tc ra pw cx.opts w.st.fresh])
       (base.length + 1) e) (base ++ [{ cx with content := c, mtch := some q' }]) (newCtx P tc ra pw cx.opts w.st.fresh) [] [] ∧
-    Plain (newCtx P tc ra pw cx.opts w.st.fresh) tc 0 := by
-  refine ⟨⟨rfl, by simp [afterEnter], settles_nil _ _, ?_⟩, ?_⟩
+    Plain P.S (newCtx P tc ra pw cx.opts w.st.fresh) tc 0 ∧ (newCtx P tc ra pw cx.opts w.st.fresh).pending = [] := by
+  refine ⟨⟨rfl, by simp [afterEnter], settles_nil _ _, ?_, by simp [afterEnter, newCtx]⟩, ?_⟩
   · intro x hx
-    have := hi.fresh
-    simp only [List.mem_append, List.mem_singleton, afterEnter] at hx this ⊢
-    rcases hx with (hx | hx) | hx
-    · exact Nat.lt_succ_of_lt (this x (.inl hx))
-    · subst hx; exact Nat.lt_succ_of_lt (this cx (.inr rfl))
-    · subst hx; simp [newCtx]
-  · refine ⟨rfl, ?_, rfl, rfl, rfl, rfl, ?_⟩
+    simp only [List.mem_append, List.mem_singleton] at hx
+    rcases hx with hx | hx
+    · exact Nat.lt_trans (hi.below x hx) hi.fresh
+    · subst hx; exact hi.fresh
+  · refine ⟨⟨rfl, ?_, rfl, ?_, rfl, rfl, ?_⟩, rfl⟩
     · simp [newCtx, NodeCtx.new, wsOptionsFor_openLeft]
+    · intro m hm; simp [newCtx, NodeCtx.new] at hm
     · simp [newCtx, NodeCtx.new, wsOptionsFor_openLeft]
 
 
